@@ -298,12 +298,18 @@ pub(crate) fn render(d: &Doc, p: &Present, rng: &mut Rng) -> Value {
 }
 
 fn parse_reser(creation: bool, text: &str) -> Result<Value, String> {
+    // the parsed value as re-serialised JSON, plus its Debug text: members that are skipped when
+    // serialising (an empty list, say) still take part in the comparison
     if creation {
         let v: CredentialCreationOptions = serde_json::from_str(text).map_err(|e| e.to_string())?;
-        serde_json::to_value(&v).map_err(|e| e.to_string())
+        let mut j = serde_json::to_value(&v).map_err(|e| e.to_string())?;
+        j["(value as Debug text)"] = json!(format!("{v:?}"));
+        Ok(j)
     } else {
         let v: CredentialRequestOptions = serde_json::from_str(text).map_err(|e| e.to_string())?;
-        serde_json::to_value(&v).map_err(|e| e.to_string())
+        let mut j = serde_json::to_value(&v).map_err(|e| e.to_string())?;
+        j["(value as Debug text)"] = json!(format!("{v:?}"));
+        Ok(j)
     }
 }
 
@@ -550,6 +556,12 @@ fn client_data_case(rep: &mut Report, seed: u64, idx: u64) {
 // emitted credentials re-parse
 // ---------------------------------------------------------------------------------------------
 
+fn first_debug_difference(a: &str, b: &str) -> String {
+    let i = a.bytes().zip(b.bytes()).position(|(x, y)| x != y).unwrap_or(a.len().min(b.len()));
+    let lo = i.saturating_sub(40);
+    format!("emitted ..{}.. parsed back ..{}..", a.get(lo..(i + 40).min(a.len())).unwrap_or(""), b.get(lo..(i + 40).min(b.len())).unwrap_or(""))
+}
+
 fn emitted(rep: &mut Report, seed: u64, n: u64, only: Option<u64>) {
     for h in 0..n {
         let idx = 7_000_000 + h;
@@ -570,8 +582,9 @@ fn emitted(rep: &mut Report, seed: u64, n: u64, only: Option<u64>) {
                             let text = serde_json::to_string(c).unwrap_or_default();
                             match serde_json::from_str::<CreatedPublicKeyCredential>(&text) {
                                 Ok(back) => {
-                                    if serde_json::to_value(&back).ok() != serde_json::to_value(c).ok() {
-                                        rep.violate("emitted registration credential does not parse back to an equal value", String::new(), case.clone());
+                                    // equal as values (Debug shows Some([]) and None apart), not only as re-serialised JSON
+                                    if serde_json::to_value(&back).ok() != serde_json::to_value(c).ok() || format!("{back:?}") != format!("{c:?}") {
+                                        rep.violate("emitted registration credential does not parse back to an equal value", first_debug_difference(&format!("{c:?}"), &format!("{back:?}")), case.clone());
                                     }
                                     rep.count("emitted_registrations_reparsed");
                                     rep.nontrivial(fnv(format!("emit-reg|{}", text.len() / 64).as_bytes()));
@@ -597,8 +610,8 @@ fn emitted(rep: &mut Report, seed: u64, n: u64, only: Option<u64>) {
                             let text = serde_json::to_string(c).unwrap_or_default();
                             match serde_json::from_str::<AuthenticatedPublicKeyCredential>(&text) {
                                 Ok(back) => {
-                                    if serde_json::to_value(&back).ok() != serde_json::to_value(c).ok() {
-                                        rep.violate("emitted assertion credential does not parse back to an equal value", String::new(), case.clone());
+                                    if serde_json::to_value(&back).ok() != serde_json::to_value(c).ok() || format!("{back:?}") != format!("{c:?}") {
+                                        rep.violate("emitted assertion credential does not parse back to an equal value", first_debug_difference(&format!("{c:?}"), &format!("{back:?}")), case.clone());
                                     }
                                     rep.count("emitted_assertions_reparsed");
                                     rep.nontrivial(fnv(format!("emit-auth|{}", text.len() / 64).as_bytes()));
